@@ -62,6 +62,7 @@ class Scope(object):
         self.globals_ = set()
         self.nonlocals = set()
         self.used = set()
+        self.pending = []     # statements a nested scope asks this (class) scope to add to its own body
         self.comp_targets = set()
         self.annotated = set()
         self.tparams = set()
@@ -1050,7 +1051,13 @@ class Gen(object):
                 ef = t
                 break
             t = t.parent
-        if ef is not None and self.p(0.35):
+        through_class = False
+        t = outer
+        while t is not None and t is not ef:
+            if t.kind == 'class':
+                through_class = True
+            t = t.parent
+        if ef is not None and self.p(0.8 if through_class else 0.35):
             cands = sorted(((ef.bound | ef.params) - ef.globals_) - fs.params - fs.globals_ - fs.tparams)
             # a name nonlocal in ef must itself resolve further out: it does, by construction
             if cands:
@@ -1062,6 +1069,20 @@ class Gen(object):
                 fs.nonlocals |= set(names)
                 body.append(ast.Nonlocal(names=names))
                 self.features.add('nonlocal_decl')
+                # class bodies between this function and the one that owns the variable: closure lookup skips every one of them,
+                # also when they bind the same name themselves
+                t = outer
+                between = []
+                while t is not None and t is not ef:
+                    if t.kind == 'class':
+                        between.append(t)
+                    t = t.parent
+                if between and self.p(0.6):
+                    self.features.add('nonlocal_through_class_binding_same_name')
+                    for c in between:
+                        if self.p(0.7):
+                            c.bound.add(names[0])
+                            c.pending.append(ast.Assign(targets=[ast.Name(id=names[0], ctx=ast.Store())], value=ast.Constant(value=self.i(0, 9)), lineno=1))
         agen = is_async and self.p(0.3)
         saved = self.with_flags(in_loop=False, in_func=True, no_ctrl=False, allow_yield=(agen or not is_async),
                                 allow_await=is_async, allow_walrus=True, bare_return=agen, leaf_only=0)
@@ -1114,7 +1135,12 @@ class Gen(object):
             if self.p(0.1):
                 body.append(ast.Assign(targets=[ast.Name(id='__slots__', ctx=ast.Store())],
                                        value=ast.Tuple(elts=[ast.Constant(value='value_name'), ast.Constant(value='a longer string literal')], ctx=ast.Load()), lineno=1))
+            if self.depth <= 4 and self.budget > 2 and self.p(0.2):
+                # a class directly inside a class
+                self.features.add('class_directly_in_class')
+                body.append(self.s_classdef())
             body += self.body(1, 4)
+            body += cs.pending
         finally:
             self.scope = outer
             self.restore(saved)
